@@ -494,9 +494,6 @@ pub fn run_send_case(c: &SendCase, st: &mut Stats, fl: Flags) -> Result<Vec<Trai
                                 format!("encap_frag({} remaining, buffer {}) -> Err({:?}) although the buffer is >= 7 bytes", remaining, buf_len, e),
                             )?;
                         }
-                        if *e != EncapError::ErrorSizeBuffer {
-                            st.violation("cont-err-kind", format!("encap_frag with a valid context -> Err({:?})", e))?;
-                        }
                     }
                 }
                 _ => break,
